@@ -5,3 +5,4 @@ import EdpVerif.Props.C12
 import EdpVerif.Props.C13
 import EdpVerif.Props.C05
 import EdpVerif.Props.C10
+import EdpVerif.Props.C04
